@@ -7,4 +7,6 @@ export COPIA_REPO="${COPIA_REPO:-/repo}"
 python3 tools/gen_shadow.py
 mkdir -p sim/target evidence replays
 ( cd sim && cargo build --release --offline -p simcheck )
+# stub conformance spot check (validates the stubs; never fails the setup)
+( cd sim && ./target/release/simcheck calib 300 ) || echo "WARNING: stub calibration reported mismatches (see above)"
 echo "setup ok"
